@@ -338,7 +338,16 @@ func (cr *checkRun) handleFailure(full string, rep *FuncReport, o *Oblig) {
 			cr.registry = map[string]bool{"$none": true}
 		}
 	}
-	if !cr.registry["$none"] && !cr.registry[o.Name] {
+	claimed := cr.registry[o.Name]
+	if !claimed {
+		for n := range cr.registry {
+			if stableOblKey(n) == stableOblKey(o.Name) && stableOblKey(n) != n {
+				claimed = true // the same clause at the same return, only the returned expression's text changed
+			}
+		}
+	}
+	refutedClause := isClauseKind(o.Kind) && o.Res.Status == "sat" // a contract clause the solver refutes is a violation, registered or not
+	if !cr.registry["$none"] && !claimed && !refutedClause {
 		// an obligation produced by changed code that is not part of the claimed set: a violation only if it replays
 		rp := replayObligation(cr, full, o)
 		if !rp.reproduced {
